@@ -74,12 +74,21 @@ Shadowed(d) == IF d.k = "alias" THEN Alias(d.name, TypeLit(<<Prop("zz", "ident",
 Raw == {[type |-> e[1], decls |-> e[2], place |-> p, resolvable |-> TRUE] : e \in Encodings, p \in Placements}
        \cup {[type |-> e[1], decls |-> e[2], place |-> "dual_scope", resolvable |-> TRUE] : e \in {x \in Encodings : Len(x[2]) = 1}}
        \cup {[type |-> e[1], decls |-> e[2], place |-> "before", resolvable |-> FALSE] : e \in Unresolvable}
+       \* the declaration the annotation names inside a function, everything it refers to at module level
+       \cup {[type |-> e[1], decls |-> e[2], place |-> "split_scope", resolvable |-> TRUE] :
+               e \in {x \in Encodings : /\ x[1].k = "ref" /\ \E i \in 1..Len(x[2]) : x[2][i].name = x[1].name
+                                         /\ \E j \in 1..Len(x[2]) : x[2][j].name # x[1].name}}
 
+(* how the annotated parameter is written: `props: T`, destructured `{ zz }: T`, with an empty default `props: T = {}`, *)
+(* as a function expression `function (props: T) {…}`, with a second (context) parameter                         *)
+PForms == {"destructured", "empty_default", "function", "with_ctx"}
+RawX == {[pform |-> "plain"] @@ r : r \in Raw}
+        \cup {[pform |-> pf] @@ r : r \in {x \in Raw : x.place = "before" /\ x.resolvable}, pf \in PForms}
 CaseSeq ==
-  LET raw == SetToSeq(Raw) IN
+  LET raw == SetToSeq(RawX) IN
   [i \in 1..Len(raw) |->
      [case |-> "C16-" \o ToString(i), prop |-> "C16", lang |-> "tsx", tscase |-> "props",
-      type |-> raw[i].type, decls |-> raw[i].decls, place |-> raw[i].place, resolvable |-> raw[i].resolvable,
+      type |-> raw[i].type, decls |-> raw[i].decls, place |-> raw[i].place, resolvable |-> raw[i].resolvable, pform |-> raw[i].pform,
       shadow |-> IF raw[i].place = "dual_scope" THEN <<Shadowed(raw[i].decls[1])>> ELSE <<>>,
       opts |-> [transformOn |-> FALSE, optimize |-> FALSE, mergeProps |-> TRUE, enableObjectSlots |-> TRUE, resolveType |-> TRUE,
                 patterns |-> <<>>, pragma |-> ""]]]
